@@ -39,6 +39,13 @@ def run(tier, seed):
                 continue
             jobs.append((fam, m.text(), pr, m.tagdefault))
             n += 1
+    for fam, m in c11faults.catalogue(rng, limit=(120 if quick else 3000)):
+        try:
+            pr = c11faults.problems(m)
+        except Exception as e:
+            chk.inconcl("model error on catalogue module: %s" % type(e).__name__)
+            continue
+        jobs.append((fam, m.text(), pr, m.tagdefault))
     seen_txt = set()
     uniq = []
     for j in jobs:
